@@ -21,7 +21,8 @@ THEOREMS = ["ElfioVerif.C04.layoutLoose_disjoint", "ElfioVerif.C04.layoutLoose_a
             "ElfioVerif.C04.wsd_monotone", "ElfioVerif.C04.layout_disjoint", "ElfioVerif.C04.layout_aligned",
             "ElfioVerif.C04.member_equidistant", "ElfioVerif.C04.member_inside",
             "ElfioVerif.C04.segment_congruent", "ElfioVerif.C04.memsz_ge_filesz",
-            "ElfioVerif.C04.memsz_covers", "ElfioVerif.C04.memsz_witness"]
+            "ElfioVerif.C04.memsz_covers", "ElfioVerif.C04.memsz_witness",
+            "ElfioVerif.C04.save_segments", "ElfioVerif.C04.save_layoutOk"]
 SITES = ["save_", "lsws", "lst_", "lseg", "wsd"]
 RULE = ("writer-domain programs (power-of-two alignments; segment members in address order, non-empty, allocated, "
         "no-bits only last; automatic or explicit non-overlapping addresses; nested segments starting at a "
